@@ -360,7 +360,7 @@ theorem run_black_persists (H : Bytes → Bytes) (o : Oracles α ι) (hconf : De
 
 /-! ## request records -/
 
-theorem putAssoc_lookup {κ ν : Type} [DecidableEq κ] (m : List (κ × ν)) (k : κ) (v : ν) :
+theorem putAssoc_lookup {κ ν : Type} [DecidableEq κ] [BEq κ] [LawfulBEq κ] (m : List (κ × ν)) (k : κ) (v : ν) :
     (putAssoc m k v).lookup k = some v := by
   induction m with
   | nil => simp [putAssoc, List.lookup]
@@ -370,23 +370,27 @@ theorem putAssoc_lookup {κ ν : Type} [DecidableEq κ] (m : List (κ × ν)) (k
     split
     · simp [List.lookup]
     · rename_i h
-      have : (k == k') = false := by simpa using fun h' => h h'.symm
+      have : (k == k') = false := by
+        cases hb : (k == k') with
+        | false => rfl
+        | true => exact absurd (eq_of_beq hb).symm h
       simp [List.lookup, this, ih]
 
-theorem putAssoc_lookup_other {κ ν : Type} [DecidableEq κ] (m : List (κ × ν)) (k k' : κ) (v : ν) (h : k' ≠ k) :
-    (putAssoc m k v).lookup k' = m.lookup k' := by
+theorem putAssoc_lookup_other {κ ν : Type} [DecidableEq κ] [BEq κ] [LawfulBEq κ] (m : List (κ × ν)) (k k' : κ) (v : ν)
+    (h : k' ≠ k) : (putAssoc m k v).lookup k' = m.lookup k' := by
+  have hne : (k' == k) = false := by
+    cases hb : (k' == k) with
+    | false => rfl
+    | true => exact absurd (eq_of_beq hb) h
   induction m with
-  | nil =>
-    have : (k' == k) = false := by simpa using h
-    simp [putAssoc, List.lookup, this]
+  | nil => simp [putAssoc, List.lookup, hne]
   | cons x r ih =>
     obtain ⟨k0, v0⟩ := x
     simp only [putAssoc]
     split
     · rename_i h0
       subst h0
-      have : (k' == k0) = false := by simpa using h
-      simp [List.lookup, this]
+      simp [List.lookup, hne]
     · simp only [List.lookup]
       split <;> simp_all
 
